@@ -22,7 +22,7 @@ CLAIMED = {
          'Exact-recipient-set, no-duplicate, refinement-to-spec and after-leave theorems hold for every finite history; histories are run '
          'on real Server+Manager and AsyncServer+AsyncManager, on the model and on a dict-of-sets oracle.',
          TB + 'bidict semantics; engine.io generate_id never repeats.', '§5 C03'),
- 'C04': ('proof', 'Lean 4 invariants over the server-core model (histories) and the scheduler model (asyncio interleavings); correspondence with Server/AsyncServer over real engine.io cores',
+ 'C04': ('proof', 'Lean 4 invariants over the server-core model (histories) and the scheduler model (asyncio interleavings, incl. a CONNECT whose handler refuses while terminating causes arrive); correspondence with Server/AsyncServer over real engine.io cores',
          'Connect/refuse/duplicate/disconnect-once clauses as theorems over arbitrary histories of the server model; every scenario is '
          'executed on both real server families and the model, and judged by an independent wire-level oracle.',
          TB + 'engine.io contract (sequential delivery per transport, exception containment, fresh ids).', '§5 C04'),
@@ -35,9 +35,9 @@ CLAIMED = {
          'adversarial ACK streams on both families and the model.',
          TB + 'call(): the wait primitive is scripted.', '§5 C06'),
  'C07': ('proof', 'Lean 4 simulation (cluster vs single server) and any-schedule theorems over a pub/sub cluster model; 2-4 real servers on an in-memory channel vs one real server and vs the model',
-         'sync_equiv (frames, all placements/hosts), at_most_once, eligible, unraced_exact, callback_once (any schedule), remote-ops-local-effect as theorems; '
+         'sync_equiv (per-client packets AND all application events incl. callback invocations, all placements/hosts, via the Linked invariant), at_most_once, eligible, unraced_exact, callback_once (any schedule), remote-ops-local-effect as theorems; '
          'mode A (drain after each op) compared with one real Server holding all clients, mode B (arbitrary consumption) with the model and the at-most-once/eligibility oracles.',
-         TB + 'equality of callback invocations in sync_equiv is decided by the correspondence run, not yet by a theorem (sync_equiv_partial); pickle; FIFO channel.', '§5 C07'),
+         TB + 'sync_equiv hypotheses (decidable, inside the property quantifier): fresh session ids, a callback emit addresses one client by its own personal room (the documented restriction; the aliasing counter-example is proved and reproduced on the real servers); ack ids abstracted in the per-client view; pickle; FIFO channel.', '§5 C07'),
  'C08': ('proof', 'Lean 4 simulation/invariant theorems over a client model and a server-view spec; correspondence with Client/AsyncClient over a scripted engine.io client',
          'connect_sends, wait_all (incl. failed-connect-clean), mirror, bad_namespace, connect/disconnect-once, reset as theorems over arbitrary '
          'histories (the connect-window regions are known findings with decide-witnesses); histories incl. loss mid-binary-packet run on both client families and the model.',
@@ -78,16 +78,17 @@ CLAIMED = {
          'Faithful-forwarding is decided by `decide` over the regenerated table and lifted to every environment by eval_faithful; the '
          'translator is validated by executing each helper for every subset of optional arguments.',
          TB + 'the ast translator (validated dynamically on every run).', '§5 C17'),
- 'C18': ('proof', 'Lean 4 theorems: admission gate with Python == on JSON values, read-only registry + frame lemma over the server model; side-by-side instrumented/plain real servers (translation validation of transparency)',
+ 'C18': ('proof', 'Lean 4 theorems: admission gate with Python == on JSON values, read-only registry + frame lemma over the server model; an Instrumented-server model (Server.step + reports on the admin namespace) with a transparency theorem, tied to the real instrumented server; side-by-side instrumented/plain real servers',
          'admits_iff / pyEq key-set theorems / read-only inertness over Server.step as theorems; real admin_connect on generated payloads; '
-         'instrumented and plain servers run the same scenarios and application-visible observations are diffed.',
-         TB + 'transparency of the wrappers is decided by the side-by-side run, not by a theorem.', '§5 C18'),
+         'wrappers_transparent_partial: for every history the application projection of the instrumented run equals the plain run (up to counter skips); '
+         'instrumented and plain servers run the same scenarios, application-visible observations are diffed, and the Instrumented model is compared with the real instrumented server.',
+         TB + 'wrappers_transparent_partial excludes namespaces="*" servers, blocking call() inside the history and a queued admin EVENT literally named connect (explicit decidable hypotheses); report contents and mutator effects of the model are not tied to the code (only their absence from application namespaces is claimed).', '§5 C18'),
  'C19': ('proof', 'Lean 4 invariants over ALL interleavings of a statement-level model of SimpleClient/AsyncSimpleClient; exhaustive/sampled schedules of the real classes under a deterministic scheduler',
          'fifo_once, no_lost_wakeup, timeout/disconnected clauses, emit_waits, deadlock characterisation as theorems for every schedule; '
          'the real classes run under a deterministic scheduler with pre-emption at every Event/buffer access and are compared with the model token by token.',
          TB + 'each shared access atomic; single producer; CPython>=3.12 wait_for semantics; two receive() re-test defects are known findings.', '§5 C19'),
  'C20': ('proof', 'Lean 4: serial-gate theorem for all schedules of the scheduler model + machine-checked race counter-examples; exhaustive interleavings of the real threaded Server under a deterministic scheduler',
-         'gate_serial_partial for every schedule without overlapping check..mark windows; race_double_call / race_raise_residue decided; '
+         'gate_serial_partial (terminating causes and refusing CONNECTs) for every schedule without overlapping check..mark windows; race_double_call / race_raise_residue decided; '
          'all interleavings of 2 (quick) / 3 (thorough) terminating actions at manager/transport-call granularity on the real Server, each mapped to the model.',
          TB + 'pre-emption at method-call granularity on manager/transport, not bytecode; the overlapping-window region is the known finding gate-overlap.', '§5 C20'),
 }
